@@ -148,3 +148,15 @@ Proof. exact batch_new_q_visits. Qed.
 Print Assumptions C08_batch_remove_equals_singles.
 Print Assumptions C08_batch_exchange_q.
 Print Assumptions C08_new_batch_q.
+
+Theorem C08_set_relation_q : forall w A f rid T w2 h evs,
+  R w A -> cache_ok w ->
+  op_batch_set_relation_q w (FPlain f) rid T = (w2, Ok (VNat h), evs) ->
+  exists w' n evs' q,
+    op_batch_set_relation w (FPlain f) rid T = (w', Ok (VNat n), evs') /\
+    w_queries w2 = w_queries w' ++ [q] /\ h = length (w_queries w') /\ w_tables w2 = w_tables w' /\
+    w_index w2 = w_index w' /\ w_pool w2 = w_pool w' /\ w_nodes w2 = w_nodes w' /\
+    q_closed q = false /\
+    omap (pos_ent w2) (enum (q_segs q)) = table_ents w (retargeted T w (get_tables w f)).
+Proof. exact batch_set_relation_q_visits. Qed.
+Print Assumptions C08_set_relation_q.
